@@ -218,7 +218,7 @@ func (opt *Option) DeepCopy() Option {
 	}
 	if opt.Default != nil {
 		clone.Default = &OptionDefault{
-			ArgsValues: append([]any(nil), opt.Default.ArgsValues...),
+			ArgsValues: deepCopyValue(opt.Default.ArgsValues).([]any),
 		}
 	}
 
@@ -253,7 +253,7 @@ type PathIndex struct {
 
 func (index PathIndex) DeepCopy() PathIndex {
 	clone := PathIndex{
-		Constant: index.Constant,
+		Constant: deepCopyValue(index.Constant),
 	}
 
 	if index.Argument != nil {
@@ -380,7 +380,7 @@ type AssignmentValue struct {
 
 func (value *AssignmentValue) DeepCopy() AssignmentValue {
 	clone := AssignmentValue{
-		Constant: value.Constant,
+		Constant: deepCopyValue(value.Constant),
 	}
 
 	if value.Argument != nil {
@@ -460,7 +460,7 @@ func (constraint AssignmentConstraint) DeepCopy() AssignmentConstraint {
 	return AssignmentConstraint{
 		Argument:  constraint.Argument.DeepCopy(),
 		Op:        constraint.Op,
-		Parameter: constraint.Parameter,
+		Parameter: deepCopyValue(constraint.Parameter),
 	}
 }
 
